@@ -480,7 +480,11 @@ def _check_clip(case, route) -> Result:
         r.classes = tuple(classes)
         return r
     if route == "cli":
-        p = subprocess.run([sys.executable, "-m", "picosvg.picosvg", "--clip_to_viewbox"], input=src.encode(), stdout=subprocess.PIPE, stderr=subprocess.PIPE, timeout=120)
+        try:
+            p = subprocess.run([sys.executable, "-m", "picosvg.picosvg", "--clip_to_viewbox"], input=src.encode(), stdout=subprocess.PIPE, stderr=subprocess.PIPE, timeout=300)
+        except subprocess.TimeoutExpired:
+            r.rejected = "cli-timeout(machine load)"  # inconclusive, never a violation
+            return r
         if p.returncode != 0:
             r.bad("cli-differs", f"CLI --clip_to_viewbox exits {p.returncode} where the library call succeeds: {p.stderr.decode(errors='replace')[-400:]}; src={src[:600]}")
             return r
